@@ -278,7 +278,37 @@ def _operands(c, pol, n, depth):
         for v in c2.values:
             out.append((v, p2, n))
             out.extend(_operands(v, p2, n, depth + 1))
+    if isinstance(c2, Phi) and depth < 6:
+        # a verdict handed back by a helper: the constant alternatives of the other
+        # truth value are ruled out; when one alternative is left, it is what holds
+        from ..iexpr import truth
+        left = [a for a in c2.terms() if truth(a) is None or truth(a) == p2]
+        if len(left) == 1 and truth(left[0]) is None:
+            out.append((left[0], p2, n))
+            out.extend(_operands(left[0], p2, n, depth + 1))
     return out
+
+
+def established(b, node_id, pred, start=None):
+    """pred(cond, effective polarity) holds for a test passed on every run-consistent
+    path to node_id: a dominating guard (or an operand of a dominating conjunction), or --
+    when the test sits in a predicate helper whose verdict is handed back and tested --
+    a set of assume nodes that cuts every consistent path from the entry."""
+    for c, pol, n in guards(b, node_id):
+        c2, p2 = unwrap_not(c, pol)
+        if pred(c2, p2):
+            return True
+    cache = getattr(b, '_assume_ops', None)
+    if cache is None:
+        cache = b._assume_ops = []
+        for n in b.nodes('assume'):
+            items = [(n.data['cond'], n.data['pol'])] + \
+                [(c, p) for c, p, _ in _operands(n.data['cond'], n.data['pol'], n, 0)]
+            cache.append((n.id, [unwrap_not(c, p) for c, p in items]))
+    sat = [nid for nid, items in cache if any(pred(c2, p2) for c2, p2 in items)]
+    if not sat:
+        return False
+    return cut_c(b, b.g.entry if start is None else start, node_id, sat)
 
 
 def probe_result_of(t):
@@ -443,8 +473,15 @@ def origin_assumes(b):
     # of helpers is tested once per level)
     b._origin_assumes = oa
     pending = dict(cand)
+    def directly_bound(table):
+        # every alternative carries the site that *handed the value over* (a return, the
+        # branch of a conditional expression): the value tested is the one produced by the
+        # site passed last, however often the producers ran.  Construction sites stand in
+        # for alternatives that lost that link (elements of collections)
+        return all(b.g.n(s_).kind in ('return', 'assume') for s_ in table)
     for nid in [k for k, (table, pol) in pending.items()
-                if len(table) <= 1 or _exclusive(b, list(table), k)]:
+                if len(table) <= 1 or directly_bound(table) or
+                _exclusive(b, list(table), k)]:
         oa[nid] = pending.pop(nid)
     progress = bool(oa)
     while pending and progress:
@@ -503,7 +540,8 @@ def dispatch_groups(b):
         dg = {}
         for n in b.nodes('dispatch'):
             if n.data.get('group') and n.data.get('alt_site') is not None and \
-                    _exclusive(b, list(n.data['group']), n.id):
+                    (all(b.g.n(s_).kind in ('return', 'assume') for s_ in n.data['group'])
+                     or _exclusive(b, list(n.data['group']), n.id)):
                 dg[n.id] = (n.data['alt_site'], n.data['group'])
         b._dispatch_groups = dg
     return dg
